@@ -17,7 +17,8 @@ Definition crc_byte (r b : N) : N :=
 
 Definition crc32_update (r : N) (bs : bytes) : N := fold_left crc_byte bs r.
 
-Definition crc32 (bs : bytes) : N := N.lxor (crc32_update crc_ones bs) crc_ones.
+(* the result is a uint32 (for inputs < 256 the register never leaves 32 bits; wrap32 states the type) *)
+Definition crc32 (bs : bytes) : N := wrap32 (N.lxor (crc32_update crc_ones bs) crc_ones).
 
 (* known vectors *)
 Example crc32_check : crc32 (unhex "313233343536373839") = 3421780262.   (* "123456789" -> 0xCBF43926 *)
